@@ -296,7 +296,7 @@ def witness_histories(pools: Pools) -> list[tuple[str, list[dict]]]:
 # oracle, shrinking, diagnosis
 # ----------------------------------------------------------------------------------------------------------------------
 def observed(call: dict) -> bool:
-    return call["kind"] not in ("gc", "churn", "scrub")
+    return call["kind"] not in ("gc", "churn", "scrub", "reset_antlr")
 
 
 def run_calls(calls: list[dict], full: Any = (), instrument: bool = False, timeout: float | None = None) -> Any:
@@ -366,6 +366,13 @@ def diagnose(calls: list[dict], ref: dict) -> tuple[str, str, dict]:
                 "explorerscript.cli.decompile.read_routines numbers ops with a module-level Counter: a second call in one process starts after the first call's last offset, " \
                 f"jump parameters then point nowhere ({got['summary'].get('error', 'other text/source map')}); resetting the counter restores the result", detail
         return "cli_result_depends_on_history", "decompile CLI helpers give another result after a history", detail
+    if kind_l == "compile" and fd == ["msg"] and got["full"].get("error") == "ParseError" == ref["full"].get("error"):
+        if not differs(calls[:-1] + [{"kind": "reset_antlr"}, last], ref["digest"]):
+            return "parse_error_message_depends_on_antlr_shared_atn", \
+                "the MESSAGE of the ParseError for the same malformed source differs after earlier compile() calls " \
+                f"({detail['after_history']['msg']!r} instead of {detail['alone']['msg']!r}; same class, same position): the generated parser's class-level " \
+                "ATN/DFA (decisionsToDFA, and the nextTokenWithinRule sets the runtime caches on the shared ATN states) make the ANTLR error strategy take another " \
+                "recovery path; the difference vanishes when these caches are re-created before the call", detail
     if kind_l == "compile":
         if fd == ["macro_order"] and last.get("slot") and "is-ssb-script" in last["text"][:40]:
             return "macro_resolution_order_kept_for_ssbscript_source", \
